@@ -535,3 +535,71 @@ def o_attribution(case, obs):
             elif name not in senders:
                 return "cmd %d: NoRecipient attributed to '%s'; models sending to a dropped mailbox: %s" % (j - 1, name, senders)
     return None
+
+
+def o_query_replies(case, obs):
+    """C14: every query yields exactly one reply per connected replier whose filter accepts the request,
+    computed by that replier from its mapped request (request + qadd, + the replier's constant, + the
+    reply map), in connection order."""
+    from collections import defaultdict
+    exp, got = defaultdict(list), defaultdict(list)
+    models = case["models"]
+    for (res, t, es) in obs:
+        for e in es:
+            f = e.split(":")
+            if f[0] in ("H", "P", "I"):
+                m = int(f[1])
+                sp = models[m]
+                if f[0] == "H":
+                    hs = sp.get("handlers", []); idx = int(f[2]); script = hs[idx] if idx < len(hs) else []; v = int(f[3])
+                elif f[0] == "P":
+                    rs = sp.get("repliers", []); idx = int(f[2]); script = rs[idx][0] if idx < len(rs) else []; v = int(f[3])
+                else:
+                    script = sp.get("init", []); v = 0
+                for op in script:
+                    if op[0] == "qry":
+                        x = ev(op[2], v)
+                        reqs = sp.get("reqs", [])
+                        reps = []
+                        for (k, add, mm, rep, radd) in (reqs[op[1]] if op[1] < len(reqs) else []):
+                            if keep_ok(k, x):
+                                rr = models[mm].get("repliers", [])
+                                c = rr[rep][1] if rep < len(rr) else 0
+                                reps.append(x + add + c + radd)
+                        if reps:
+                            exp[m].append(reps)
+            elif f[0] == "Y":
+                got[int(f[1])].append([int(x) for x in f[2].split(",")] if f[2] else [])
+    ff = first_fatal(obs)
+    for m in set(exp) | set(got):
+        e, g = exp[m], got[m]
+        if ff is None:
+            if e != g:
+                return "model %d: query replies %s, expected %s" % (m, g[:6], e[:6])
+        else:
+            if g != e[:len(g)]:
+                return "model %d: query replies %s are not a prefix of the expected %s" % (m, g[:6], e[:6])
+    return None
+
+
+def o_triangle(case, obs):
+    """C02 (benches of simgen.gen_triangle): A sends v to B, then v+1 to C; C, processing it, sends
+    v+1001 to B: B must process v before v+1001, for every root v."""
+    seq = []
+    for (res, t, es) in obs:
+        for e in es:
+            f = e.split(":")
+            if f[0] == "H" and int(f[1]) == 1:
+                seq.append(int(f[3]))
+    pos = {}
+    for i, v in enumerate(seq):
+        pos.setdefault(v, i)
+    for v in case.get("meta", {}).get("roots", []):
+        if v in pos and v + 1001 in pos and pos[v] > pos[v + 1001]:
+            return "model B processed %d (sent by C while handling A's later message) before %d (sent earlier by A): order at B %s" % (v + 1001, v, seq[:12])
+        # same-sender program order: A's first-port messages arrive in sending order
+    a_vals = [v for v in seq if v in set(case.get("meta", {}).get("roots", []))]
+    roots_in_order = [v for v in case.get("meta", {}).get("roots", []) if v in set(a_vals)]
+    if case.get("meta", {}).get("sequential_roots") and a_vals != roots_in_order:
+        return "messages sent to B by one sender in the order %s were processed in the order %s" % (roots_in_order, a_vals)
+    return None
